@@ -66,6 +66,9 @@ def gen(rng, tier):
         'msgpack': rng.random() < 0.25,
         # the disconnect handler tells the namespace that the client left
         'disc_emits': rng.random() < 0.25,
+        # the application puts every accepted session into a room (the names
+        # are legal, some unusual: 0, the empty string)
+        'app_room': rng.choice([None, None, 'lobby', 0, '', 0.0, 7]),
     }
     npeers = rng.randrange(1, 4)
     ops = []
@@ -383,7 +386,11 @@ def _run(case, cfg, w):
                 v.add('other_namespace_affected', '%s: live sid %s [%s] '
                       'received %d copies of a direct emit'
                       % (where, sid, ns, len(got)), 'got%d' % min(len(got), 2))
-            if srv.rooms(sid, ns) != [sid]:
+            want_rooms = [sid] + ([cfg['app_room']]
+                                  if by_sid.get(sid, {}).get('roomed')
+                                  else [])
+            if sorted(map(repr, srv.rooms(sid, ns))) != \
+                    sorted(map(repr, want_rooms)):
                 v.add('live_rooms_wrong', (sid, ns, srv.rooms(sid, ns)))
         new_rx(p)
 
@@ -486,6 +493,11 @@ def _run(case, cfg, w):
                 by_sid[sid] = c
                 if not srv.manager.is_connected(sid, ns):
                     v.add('accepted_not_connected', where)
+                elif cfg.get('app_room') is not None:
+                    w.api('s', 'enter_room', sid, cfg['app_room'],
+                          namespace=ns)
+                    w.settle()
+                    c['roomed'] = True
             else:
                 want = refusal_payload(eff)
                 if cfg['always_connect']:
